@@ -90,7 +90,9 @@ def dispatch(it, st, stack, fr, dest, callee, args, ret_bb):
     if c.endswith('as PartialEq>::ne') or c.endswith('as PartialEq>::eq') or re.search(r'as PartialEq<.*>>::(ne|eq)$', c):
         a, b = deref(deref(args[0])), deref(deref(args[1]))
         neg = c.endswith('::ne')
-        if isinstance(a, Str) and isinstance(b, Str):
+        if isinstance(a, Agg) and isinstance(b, Agg) and not a.fields and not b.fields and a.ty == b.ty and a.ty in it.prog.core_enums:
+            r = a.idx == b.idx
+        elif isinstance(a, Str) and isinstance(b, Str):
             r = a.s == b.s
         elif isinstance(a, Sym) and isinstance(b, Str) or isinstance(b, Sym) and isinstance(a, Str):
             s, k = (a, b) if isinstance(a, Sym) else (b, a)
@@ -98,6 +100,54 @@ def dispatch(it, st, stack, fr, dest, callee, args, ret_bb):
         else:
             raise Unsupported('string comparison of %r, %r' % (a, b))
         return (not r) if neg else r
+    m = re.search(r'<(\w+) as Partial(Eq|Ord)>::(eq|ne|lt|le|gt|ge)$', c)
+    if m and m.group(1) in it.prog.core_enums:
+        a, b = deref(deref(args[0])), deref(deref(args[1]))
+        if not (isinstance(a, Agg) and isinstance(b, Agg) and not a.fields and not b.fields):
+            raise Unsupported('comparison of %r, %r' % (a, b))
+        # derive(PartialEq, PartialOrd) on a fieldless enum compares discriminants
+        return {'eq': a.idx == b.idx, 'ne': a.idx != b.idx, 'lt': a.idx < b.idx, 'le': a.idx <= b.idx, 'gt': a.idx > b.idx, 'ge': a.idx >= b.idx}[m.group(3)]
+    if re.search(r'fmt::rt::Argument::<.*>::new_display', c) or re.search(r'fmt::rt::Argument::<.*>::new_debug', c):
+        v = args[0]
+        while isinstance(v, Ref):
+            v = v.cell.v
+        return Sym('fmtarg', v)
+    if re.search(r'Arguments::<.*>::new::<\d+, \d+>$', c):
+        tmpl, arr = args[0], deref(args[1])
+        if not isinstance(tmpl, bytes) or not isinstance(arr, Agg):
+            raise Unsupported('format template %r' % (tmpl,))
+        # template encoding of this compiler: a byte < 0x80 = length of a literal that follows,
+        # 0xc0 = the next argument, 0x00 = end
+        out, i, k = [], 0, 0
+        while i < len(tmpl):
+            b = tmpl[i]
+            if b == 0:
+                break
+            if b < 0x80:
+                out.append(Str(tmpl[i + 1:i + 1 + b].decode('utf-8', 'replace')))
+                i += 1 + b
+            elif b == 0xc0:
+                out.append(arr.fields[k].v)
+                k += 1
+                i += 1
+            else:
+                raise Unsupported('format template byte %#x' % b)
+        return Sym('fmtargs', tuple(out))
+    if c in ('format', 'alloc::fmt::format', 'std::fmt::format') or c.endswith('fmt::format'):
+        a = args[0]
+        if isinstance(a, Sym) and a.name == 'fmtargs':
+            parts = []
+            for x in a.args[0]:
+                if isinstance(x, Str):
+                    parts.append(x.s)
+                elif isinstance(x, Sym) and x.name == 'fmtarg' and isinstance(x.args[0], Str):
+                    parts.append(x.args[0].s)
+                else:
+                    return Sym('format', a.args[0])
+            return Str(''.join(parts))
+        raise Unsupported('format of %r' % (a,))
+    if c.startswith('must_use::<') or c.endswith('::must_use::<String>'):
+        return args[0]
     if c.endswith('as ToString>::to_string'):
         return Sym('to_string', deref(args[0]))
     if re.search(r'slice::<impl \[u8\]>::to_vec$', c) or c.endswith('::to_vec'):
@@ -277,6 +327,29 @@ def dispatch(it, st, stack, fr, dest, callee, args, ret_bb):
             return err(Sym('anyhow#%s' % tag))
         k = it.choose(st, [('%s: ok' % tag, 'ok'), ('%s: storage error' % tag, 'err')])
         return ok(UNIT) if k == 'ok' else err(Sym('anyhow#%s' % tag))
+    if re.search(r'(?:^|::)Server::new::<', c):
+        return Opaque('Server')
+    if re.search(r'Arc::<.*>::new$', c):
+        return Opaque('Arc', inner=Cell(args[0]))
+    if re.search(r'HashSet::<.*>::is_empty$', c):
+        r = it.choose(st, [('allow-list is empty', True), ('allow-list is not empty', False)])
+        return r
+    if re.search(r'Option::<.*>::filter::<', c):
+        o, f = args
+        if o.variant == 'None':
+            return o
+        if isinstance(f, Sym) and f.name == 'fnitem' and f.args[0].startswith('{closure@'):
+            cands = [fn for n, fn in it.prog.funcs.items() if '{closure#' in n and fn.args and fn.args[0][1] == f.args[0]]
+            if len(cands) == 1:
+                # continuation: keep the option iff the predicate returns true
+                caller = stack.pop()
+                stack.append((caller[0], caller[1], ('filter_keep', dest, o), ret_bb))
+                nfr = {}
+                for (loc, _ty), v in zip(cands[0].args, [Sym('closure_env'), Ref(o.fields[0])]):
+                    nfr[loc] = Cell(v)
+                stack.append((cands[0], nfr, 'bb0', 0))
+                return 'PUSHED'
+        raise Unsupported('Option::filter with %r' % (f,))
     if re.search(r'Option::<.*>::is_none$', c):
         return deref(args[0]).variant == 'None'
     if re.search(r'Option::<.*>::is_some$', c):
